@@ -43,6 +43,16 @@ CHECKS = {
               'where its precondition was observed by a detector.'),
         technique='online trace specification over recorded lifecycle events; deadlock/horizon detection by a deterministic scheduler; fault-position enumeration',
         engine='detsched+simcf', design='DESIGN.md §3 C02'),
+    'C07': dict(
+        level='exploration',
+        text=('The real _IncomingPacketHandler.run() is pumped in the harness thread with scripted packets. Instrumented '
+              'callbacks log every delivery and execute mutation scripts (remove self/earlier/later, add, add-then-remove, '
+              'raise) during dispatch; an independent matcher and must/may/must-not sets computed from the table at the '
+              'start of each dispatch judge the log. All 256 header bytes, random registration tables over all masks, and '
+              'Caller.add/remove/call under the same scripts.'),
+        note='Single-threaded by construction (dispatch is single-threaded in the library); matching rule as stated in the property.',
+        technique='offline checker over a delivery log against an independent reference matcher (pump mode)',
+        engine='pump', design='DESIGN.md §3 C07'),
 }
 
 PENDING_REASON = ('check not built yet in this work session (design in DESIGN.md §3); nothing is claimed for it '
@@ -88,6 +98,8 @@ def manifest():
         'engines': [
             {'name': 'codec-oracles', 'path': 'vf/checks', 'serves_properties': ['C13'],
              'kind_free_text': 'independent reference computations judged against return values of the real functions'},
+            {'name': 'pump', 'path': 'vf/checks/c07.py', 'serves_properties': ['C07'],
+             'kind_free_text': 'the dispatcher loop run in the harness thread over a scripted link (no scheduler)'},
             {'name': 'detsched+simcf', 'path': 'vf/detsched.py, vf/simcf.py, vf/simlink.py',
              'serves_properties': [p for p in ('C02', 'C03', 'C04', 'C05', 'C06', 'C10', 'C11') if p in CHECKS],
              'kind_free_text': ('deterministic baton-passing scheduler with a virtual clock over the library\'s real '
